@@ -117,6 +117,7 @@ CHECKS["C03"] = {
         J("known-stale", "c03", "TestKnownStaleEarlyReferenceAfterFailedCreation", None, None),
         J("retryinit", "c03", "TestRetryAfterInitFailure", 1500, 40000, 4),
         J("sametypecopy", "c03", "TestStaticSameTypeCopyOnCycle", None, None),
+        J("preparation", "c03", "TestStaticSubstitutionDuringPreparation", None, None),
     ],
     "assumptions": [
         "a *T pointer field cannot hold a substitute, so only components consumed through interfaces are wrapped",
